@@ -182,12 +182,20 @@ def run(ctx):
 
     # ---------------------------------------------------------------- C17.PICK
     ff = ctx.facts(fc)
-    sel = [st for st in ast.walk(fc.node) if isinstance(st, ast.If) and any(isinstance(b, ast.Assign) and src(b) == "lastcomp = comp" for b in st.body)
-           and "compdt" in src(st.test)]
-    okp = len(sel) == 1 and src(sel[0].test).replace(" ", "") == "compdtand(notlastcompdtorlastcompdt<compdt)" and \
-        any(isinstance(b, ast.Assign) and src(b) == "lastcompdt = compdt" for b in sel[0].body)
-    ctx.ob("C17.PICK", fc, "the component whose latest onset not after the wall time is the latest wins (strictly later replaces), "
-           "and the best onset is remembered with it", okp, construct="selection test: %s" % (src(sel[0].test) if sel else "?"), analysis="CMP table")
+    # the selection loop: the loop over the components that calls _find_compdt - one symbolic iteration against its table
+    sel_loops = [n for n in walk_local(fc.node) if isinstance(n, ast.For) and any(
+        isinstance(x, ast.Call) and src(x.func).endswith("_find_compdt") for b_ in n.body for x in ast.walk(b_))]
+    if len(sel_loops) != 1:
+        raise AnalysisError("C17.PICK", fc.qualname, "expected one loop calling _find_compdt, found %d" % len(sel_loops))
+    from .. import equiv as _equiv
+    summ.check_ref(ctx, "C17.PICK", [sel_loops[0]], "the component whose latest onset not after the wall time is the latest wins (strictly later replaces), "
+                   "and the best onset is remembered with it", """
+        for comp in self._comps:
+            compdt = self._find_compdt(comp, dt)
+            if compdt and (not lastcompdt or lastcompdt < compdt):
+                lastcompdt = compdt
+                lastcomp = comp
+        """, construct="selection loop over the components", where=fc, alpha="auto", loops="body", outcome=_equiv.loose_outcome)
     fb = [n for n in fcfg.live_nodes() if n.kind == "stmt" and isinstance(n.ast, ast.Assign) and isinstance(n.ast.value, ast.Name) and n.ast.value.id == "comp"
           and ("comp.isdst", False) in ff.at(n)]
     okf = len(fb) == 1 and src(fb[0].ast.targets[0]) == "lastcomp" and ("lastcomp", False) in ff.at(fb[0]) and \
@@ -209,11 +217,14 @@ def run(ctx):
 
     # ---------------------------------------------------------------- C17.COMP
     ci = prog.method(comp.qualname, "__init__", "C17.COMP")
-    vals = {src(n.targets[0]): src(n.value) for n in walk_local(ci.node) if isinstance(n, ast.Assign)}
-    want = {"self.tzoffsetfrom": "datetime.timedelta(seconds=tzoffsetfrom)", "self.tzoffsetto": "datetime.timedelta(seconds=tzoffsetto)",
-            "self.tzoffsetdiff": "self.tzoffsetto - self.tzoffsetfrom", "self.isdst": "isdst", "self.tzname": "tzname", "self.rrule": "rrule"}
-    ctx.ob("C17.COMP", ci, "the component record stores from/to as seconds, diff = to - from, and the remaining fields under their names", vals == want, construct="_tzicalvtzcomp fields",
-           detail="" if vals == want else str(vals), analysis="FIELD same-field + UNIT")
+    summ.check_ref(ctx, "C17.COMP", ci, "the component record stores from/to as timedeltas of the given seconds, diff = to - from, and the remaining fields under their names", """
+        self.tzoffsetfrom = datetime.timedelta(seconds=tzoffsetfrom)
+        self.tzoffsetto = datetime.timedelta(seconds=tzoffsetto)
+        self.tzoffsetdiff = self.tzoffsetto - self.tzoffsetfrom
+        self.isdst = isdst
+        self.tzname = tzname
+        self.rrule = rrule
+        """, construct="_tzicalvtzcomp fields", alpha="auto", outcome=_equiv.loose_outcome, analysis="FIELD same-field table (guarded normal form)")
     uo = prog.method(vtz.qualname, "utcoffset", "C17.COMP")
     ctx.ob("C17.COMP", uo, "utcoffset is the selected component's TZOFFSETTO", "return self._find_comp(dt).tzoffsetto" in src(uo.node), construct="utcoffset body")
     ds = prog.method(vtz.qualname, "dst", "C17.COMP")
